@@ -213,6 +213,7 @@ func runEntry(prog *ssa.Program, epkg *ssa.Package, entry string, cfg Config, po
 	upperMemo = map[*Term][2]int{}
 	builderAcc = map[*Object]Value{}
 	nonNegMemo = map[*Term]bool{}
+	constLeafMemo = map[*Term]bool{}
 	pushMemo = map[[3]int]*Term{}
 	parseMemo = map[*Term][2]*Term{}
 	wrapped = map[*Object]RefV{}
